@@ -40,6 +40,10 @@ pub mod functions { use vstd::prelude::*; #[verifier::external_body] pub struct 
 pub fn execute_builtin_command(builtin: &builtins::Registration, context: ExecutionContext, args: Vec<CommandArg>) -> Result<ExecutionResult, error::Error> { unimplemented!() }
 #[verifier::external_body]
 pub fn invoke_shell_function(function: functions::Registration, context: ExecutionContext, args: &[CommandArg]) -> Result<ExecutionSpawnResult, error::Error> { unimplemented!() }
+#[verifier::external_body]
+pub fn execute_external_command(context: ExecutionContext, executable_path: &str, process_group_id: Option<i32>, argv0_override: Option<&str>, args: &[CommandArg]) -> Result<ExecutionSpawnResult, error::Error> { unimplemented!() }
+#[verifier::external_body]
+pub fn vx_as_deref(o: &Option<String>) -> (r: Option<&str>) ensures r is Some == o is Some { unimplemented!() }
 pub open spec fn hook_once(old_s: ShellForCommand, new_s: ShellForCommand, hook: Option<PostExecute>) -> bool {
     new_s.hooks() == old_s.hooks() + (if hook is Some { 1nat } else { 0nat })
 }
